@@ -393,7 +393,12 @@ impl FseTable {
         // Use fixed TF_SHIFT constant for optimal performance, regardless of table_log
         const TF_SHIFT: u8 = 12;
         let table_size = 1usize << TF_SHIFT;  // Always use TF_SHIFT for table size
-        let total_freq: u32 = frequencies.iter().sum();
+        // Frequencies may come straight from a compressed stream: the total must not
+        // overflow and must stay below 2^31 for FastDivision::new
+        let total_freq = frequencies.iter()
+            .try_fold(0u32, |acc, &freq| acc.checked_add(freq))
+            .filter(|&total| total < (1u32 << 31))
+            .ok_or_else(|| ZiporaError::invalid_data("Total frequency too large"))?;
         
         if total_freq == 0 {
             return Err(ZiporaError::invalid_data("Total frequency is zero"));
